@@ -517,7 +517,20 @@ fn worker() -> ! {
         Ok(d) => load_seeds(std::path::Path::new(&d)),
         Err(_) => all_seeds(),
     };
-    let dir = engine::scratch("c05w");
+    // workers leave through process::exit, which runs no destructors: keep the scratch directory inside the
+    // parent's seed directory so that the parent removes it together with the seeds
+    let own;
+    let dir: std::path::PathBuf = match std::env::var("VERIF_C05_SEEDS") {
+        Ok(d) => {
+            let p = std::path::Path::new(&d).join(format!("w-{}", std::process::id()));
+            std::fs::create_dir_all(&p).expect("worker scratch");
+            p
+        }
+        Err(_) => {
+            own = engine::scratch("c05w");
+            own.path().to_path_buf()
+        }
+    };
     supervise::worker_loop(|v| {
         let c: Case = match serde_json::from_value(v) {
             Ok(c) => c,
@@ -534,7 +547,7 @@ fn worker() -> ! {
         eprintln!("CASE {} {} len={}", c.format, c.seed, input.len());
         let single = (64usize << 20).max(256 * input.len());
         supervise::set_alloc_limits(single, 1 << 30);
-        let r = engine::guard(&c.format, || run_target(&c.format, &input, dir.path()));
+        let r = engine::guard(&c.format, || run_target(&c.format, &input, &dir));
         supervise::clear_alloc_limits();
         match r {
             Ok(class) => json!({"class": class, "len": input.len(), "peak": supervise::peak_single()}),
@@ -632,6 +645,7 @@ fn main() {
         }
         check.count("replay-pad", true);
         check.count("replay-pad2", true);
+        let _ = std::fs::remove_dir_all(seed_dir.path());
         check.finish();
     }
     // `c05 --classify <format> <artifact-file>…`: judge raw inputs (libFuzzer artifacts) like mutated seeds
@@ -647,6 +661,7 @@ fn main() {
         for r in &recs {
             println!("{r}");
         }
+        let _ = std::fs::remove_dir_all(seed_dir.path());
         check.finish();
     }
 
@@ -723,6 +738,8 @@ fn main() {
     } else {
         check.bump("fuzz:engine-b-skipped", 1);
     }
+    // `finish` exits the process without running destructors
+    let _ = std::fs::remove_dir_all(seed_dir.path());
     check.finish();
 }
 
